@@ -60,3 +60,33 @@ End Writer.
    before it parks), thread B gets every chance, A is released *)
 Definition park_schedule (k : N) : list bool :=
   (if k =? 1 then [true; true; true] else [true; true; true; true]) ++ repeat false 8 ++ repeat true 8 ++ repeat false 8.
+
+(* ---------- a sequence of requests on one writer: which buffer is framed ---------- *)
+(* newRequestWriter binds the QPACK encoder to the header buffer ONCE (qpack.NewEncoder(headerBuf));
+   writeHeaders frames w.headerBuf.  bw_same = the two are still the same object; bw_enc / bw_frm =
+   their contents; bw_cap = the high-water mark of the framed buffer (bytes.Buffer capacity).
+   drop_above = None: the code as it is (the buffer is Reset and kept); Some n: "install a fresh
+   buffer when the old one has grown past n" (for the refutation). *)
+Record bwstate := { bw_same : bool; bw_enc : bytes; bw_frm : bytes; bw_cap : N }.
+Definition bw_init : bwstate := {| bw_same := true; bw_enc := []; bw_frm := []; bw_cap := 0 |}.
+
+Definition bw_request (drop_above : option N) (st : bwstate) (section : bytes) : bytes * bwstate :=
+  (* encodeHeaders: the encoder appends to ITS buffer *)
+  let encb := bw_enc st ++ section in
+  let frm := if bw_same st then encb else bw_frm st in
+  let cap := N.max (bw_cap st) (lenN frm) in
+  (* the HEADERS frame: length of w.headerBuf, then its bytes *)
+  let out := whdr (lenN frm) ++ frm in
+  (* deferred release *)
+  match drop_above with
+  | Some n =>
+      if n <? cap then (out, {| bw_same := false; bw_enc := encb; bw_frm := []; bw_cap := 0 |})
+      else (out, {| bw_same := bw_same st; bw_enc := if bw_same st then [] else encb; bw_frm := []; bw_cap := cap |})
+  | None => (out, {| bw_same := bw_same st; bw_enc := if bw_same st then [] else encb; bw_frm := []; bw_cap := cap |})
+  end.
+
+Fixpoint bw_run (drop_above : option N) (st : bwstate) (sections : list bytes) : list bytes :=
+  match sections with
+  | [] => []
+  | s :: r => let '(out, st') := bw_request drop_above st s in out :: bw_run drop_above st' r
+  end.
